@@ -1,11 +1,19 @@
 #!/bin/sh
 # usage: harness/regress_mutants.sh [seeded dirs...]   (default: all of seeded/C*)
 # For every kept seeded defect: scratch worktree of /repo's HEAD under /tmp, apply its patch, run the check of its
-# property against it (VERIF_REPO), print one line, remove the worktree. /repo itself is never touched.
-# SEEDS="0 1 2" runs several seeds per defect (default: 0).
+# property against it (VERIF_REPO), print one line, remove the worktree. /repo itself is never touched; evidence and
+# replay files of these runs go to /tmp/regress_out (VERIF_EVIDENCE_DIR / VERIF_REPLAYS_DIR), not into /verif.
+# SEEDS="0 1 2" runs several seeds per defect (default: 0); PAR=<n> runs n defects at a time (default 1).
 # A seeded defect must be reported (exit 1 with a VIOLATION line); "concrete" = with a failing input.
 cd /verif || exit 2
 LIST=${*:-$(ls -d seeded/C*)}
+if [ "${PAR:-1}" -gt 1 ] && [ -z "$REGRESS_CHILD" ]; then
+  echo $LIST | tr ' ' '\n' | REGRESS_CHILD=1 xargs -P $PAR -I{} sh harness/regress_mutants.sh {}
+  git -C /repo worktree prune
+  exit 0
+fi
+mkdir -p /tmp/regress_out/evidence /tmp/regress_out/replays
+export VERIF_EVIDENCE_DIR=/tmp/regress_out/evidence VERIF_REPLAYS_DIR=/tmp/regress_out/replays
 for d in $LIST; do
   name=$(basename $d)
   pid=$(echo $name | cut -c1-3)
@@ -24,4 +32,5 @@ for d in $LIST; do
   fi
   git -C /repo worktree remove --force $wt
 done
-git -C /repo worktree prune
+[ -z "$REGRESS_CHILD" ] && git -C /repo worktree prune
+exit 0
